@@ -350,6 +350,23 @@ def faults(rng, case):
                     return None
             return False
         variant('mc-claim-reply-ambiguous', claim_reply_ambiguous)
+        # the claim reply names a declaration that exists but is no enum
+        for kind in ('subint', 'extern', 'itf', 'foreign'):
+            def reply_other_kind(c, kind=kind):
+                global FORCE_KIND
+                keep, FORCE_KIND = FORCE_KIND, kind
+                try:
+                    place(c['file'], [], other_kind(['NotAnEnum']))
+                finally:
+                    FORCE_KIND = keep
+                claim_reply(c, ['NotAnEnum'])
+            variant('mc-claim-reply-is-' + kind, reply_other_kind)
+        # names are compared exactly: surrounding blanks make another name
+        variant('mc-port-name-padded', lambda c: setmc(c, 0, mc[0] + ' '))
+        variant('mc-port-name-padded-left', lambda c: setmc(c, 0, ' ' + mc[0]))
+        variant('mc-claim-name-padded', lambda c: setmc(c, 1, mc[1] + ' '))
+        variant('mc-release-name-padded', lambda c: setmc(c, 3, '\t' + mc[3]))
+        variant('mc-value-padded', lambda c: setmc(c, 2, [mc[2][0] + ' ']))
         variant('mc-claim-reply-void', lambda c: claim_reply(c, ['void']))
         variant('mc-claim-reply-unresolvable', lambda c: claim_reply(c, ['NoEnumHere']))
 
